@@ -99,11 +99,15 @@ fn mac3(mut acc: &mut [BigDigit], mut b: &[BigDigit], mut c: &[BigDigit]) {
     // of `cargo bench --bench bigint multiply`.
 
     if x.len() <= 32 {
+        #[cfg(num_bigint_verif)]
+        crate::__verif::hit(crate::__verif::MAC3_LONG);
         // Long multiplication:
         for (i, xi) in x.iter().enumerate() {
             mac_digit(&mut acc[i..], y, *xi);
         }
     } else if x.len() * 2 <= y.len() {
+        #[cfg(num_bigint_verif)]
+        crate::__verif::hit(crate::__verif::MAC3_HALF);
         // Karatsuba Multiplication for factors with significant length disparity.
         //
         // The Half-Karatsuba Multiplication Algorithm is a specialized case of
@@ -163,6 +167,8 @@ fn mac3(mut acc: &mut [BigDigit], mut b: &[BigDigit], mut c: &[BigDigit]) {
         mac3(acc, x, low2);
         mac3(&mut acc[m2..], x, high2);
     } else if x.len() <= 256 {
+        #[cfg(num_bigint_verif)]
+        crate::__verif::hit(crate::__verif::MAC3_KARATSUBA);
         // Karatsuba multiplication:
         //
         // The idea is that we break x and y up into two smaller numbers that each have about half
@@ -276,6 +282,8 @@ fn mac3(mut acc: &mut [BigDigit], mut b: &[BigDigit], mut c: &[BigDigit]) {
             NoSign => (),
         }
     } else {
+        #[cfg(num_bigint_verif)]
+        crate::__verif::hit(crate::__verif::MAC3_TOOM3);
         // Toom-3 multiplication:
         //
         // Toom-3 is like Karatsuba above, but dividing the inputs into three parts.
